@@ -74,6 +74,10 @@ Table == <<
   Sym("?", <<"?">>, "bin", 3, "table"),
   Sym("\\", <<"\\">>, "bin", 3, "table"),
   Form("$i", "$ i", "bin", 3, "table"),
+  \* the same operator with an initial value that begins with a prefix operator (`$ *c f': the content of a cell,
+  \* `$ -i f'): the blank after `$' keeps `$ *' from being read as the product operator `$*'
+  Form("$*c", "$ *c", "bin", 3, "statement"),
+  Form("$-i", "$ -i", "bin", 3, "statement"),
   Sym("$+", <<"$", "+">>, "post", 3, "table"),
   Sym("$*", <<"$", "*">>, "post", 3, "table"),
   Sym("$&&", <<"$", "&", "&">>, "post", 3, "table"),
@@ -179,7 +183,7 @@ Determined(ts) ==
 \*  `a ? int | ! b'   `int | !' is a union type (`!' = never), so the type filter's type competes
 \*              with bitwise OR followed by NOT.
 UnsettledPrefixAfter(binName) == IF binName = "?" THEN {"!"}
-                                 ELSE IF binName = "$i" THEN {"-", "*"} ELSE {}
+                                 ELSE IF binName \in {"$i", "$*c", "$-i"} THEN {"-", "*"} ELSE {}
 Settled(ts) ==
   /\ \A i \in 1..(Len(ts) - 1) :
         (ts[i].t = "bin" /\ ts[i + 1].t = "pre") => ts[i + 1].s \notin UnsettledPrefixAfter(ts[i].s)
@@ -602,6 +606,13 @@ Ev(t, env, st) ==
                 ELSE IF a.v.v = (t.o.s = "||") THEN [v |-> a.v, st |-> a.st]   \* short circuit: rhs not run
                 ELSE [v |-> b.v, st |-> b.st]
          ELSE IF t.o.s \in AssignNames THEN ApAssign(t.o.s, a.v, b.v, env, b.st)
+         \* reduce with an initial value that is itself a prefix application over an embedded operand
+         ELSE IF t.o.s = "$*c" THEN
+                (IF env["c"].k # "cell" THEN [v |-> TErr, st |-> b.st]
+                 ELSE [v |-> ApBin("$i", a.v, b.v, [env EXCEPT !["i"] = b.st[env["c"].id]]), st |-> b.st])
+         ELSE IF t.o.s = "$-i" THEN
+                (IF env["i"].k # "int" THEN [v |-> TErr, st |-> b.st]
+                 ELSE [v |-> ApBin("$i", a.v, b.v, [env EXCEPT !["i"] = VI(-env["i"].v)]), st |-> b.st])
          ELSE [v |-> ApBin(t.o.s, a.v, b.v, env), st |-> b.st]
 
 RECURSIVE FirstOrder(_)
